@@ -15,7 +15,14 @@ import os
 
 @contextlib.contextmanager
 def injected(plan: dict):
-    """*plan*: absolute real path -> "eacces" | "vanish"."""
+    """*plan*: absolute real path -> "eacces" | "vanish" | "nowrite" | "vanish-listed".
+
+    "vanish-listed": the entry (file or directory) is removed right after the
+    directory holding it has been listed by os.walk and before the walker's
+    consumer gets to see the listing, i.e. it disappears between enumeration and
+    the first look at it.  "vanish-listed-2": the same at the second time the
+    entry is listed (the tool walks the tree once for configuration files and
+    once for covered files)."""
     if not plan:
         yield
         return
@@ -35,7 +42,7 @@ def injected(plan: dict):
             if any(c in mode for c in "wax+"):
                 raise OSError(28, "No space left on device", str(file))
             return
-        if kind and not any(c in mode for c in "wax+"):
+        if kind in ("eacces", "vanish") and not any(c in mode for c in "wax+"):
             if kind == "eacces":
                 raise PermissionError(13, "Permission denied", str(file))
             if kind == "vanish":
@@ -51,10 +58,33 @@ def injected(plan: dict):
         check(file, mode)
         return real_io_open(file, mode, *a, **kw)
 
+    real_walk = os.walk
+    seen = {}
+
+    def fake_walk(top, *a, **kw):
+        import shutil
+
+        for dirpath, dirs, files in real_walk(top, *a, **kw):
+            for name in list(dirs) + list(files):
+                p = os.path.realpath(os.path.join(os.fspath(dirpath), name))
+                kind = plan.get(p)
+                if kind == "vanish-listed-2":
+                    seen[p] = seen.get(p, 0) + 1
+                if kind == "vanish-listed" or (kind == "vanish-listed-2" and seen[p] >= 2):
+                    if os.path.isdir(p):
+                        shutil.rmtree(p, ignore_errors=True)
+                    else:
+                        with contextlib.suppress(OSError):
+                            os.unlink(p)
+            yield dirpath, dirs, files
+
     builtins.open = fake_open
     io.open = fake_io_open
+    if {"vanish-listed", "vanish-listed-2"} & set(plan.values()):
+        os.walk = fake_walk
     try:
         yield
     finally:
         builtins.open = real_open
         io.open = real_io_open
+        os.walk = real_walk
